@@ -27,6 +27,7 @@ import (
 	"time"
 
 	"github.com/tochemey/goakt/v4/actor"
+	"github.com/tochemey/goakt/v4/internal/verifhook"
 )
 
 // flowActor is the generic flow stage actor.
@@ -72,6 +73,7 @@ func (a *flowActor) PreStart(_ *actor.Context) error { return nil }
 // Receive handles stageWire, streamRequest, streamElement, streamComplete,
 // streamError, and streamCancel.
 func (a *flowActor) Receive(rctx *actor.ReceiveContext) {
+	verifhook.At("stream.recv", rctx, 0, 0)
 	switch msg := rctx.Message().(type) {
 	case *stageWire:
 		a.upstream = msg.upstream
@@ -250,6 +252,7 @@ func newFusedFlowActor(fn func(any) (any, bool, error), config StageConfig) *fus
 func (a *fusedFlowActor) PreStart(_ *actor.Context) error { return nil }
 
 func (a *fusedFlowActor) Receive(rctx *actor.ReceiveContext) {
+	verifhook.At("stream.recv", rctx, 0, 0)
 	switch msg := rctx.Message().(type) {
 	case *stageWire:
 		a.upstream = msg.upstream
@@ -341,6 +344,7 @@ func (a *batchFlowActor[T]) PreStart(ctx *actor.Context) error {
 // Receive handles stageWire, streamRequest, streamElement, batchFlush,
 // streamComplete, streamError, and streamCancel.
 func (a *batchFlowActor[T]) Receive(rctx *actor.ReceiveContext) {
+	verifhook.At("stream.recv", rctx, 0, 0)
 	switch msg := rctx.Message().(type) {
 	case *stageWire:
 		a.upstream = msg.upstream
